@@ -250,7 +250,10 @@ class Functor(pg_object.Object, utils.Functor):
 
   def _sym_clone(self, deep: bool, memo: Any = None) -> 'Functor':
     """Override to copy bound args."""
-    other = super()._sym_clone(deep, memo)
+    # NOTE: a clone is a functor like its source, also inside a
+    # `pg.auto_call_functors` scope, where constructing one would call it.
+    with flags.auto_call_functors(False):
+      other = super()._sym_clone(deep, memo)
     # pylint: disable=protected-access
     other._non_default_args = set(self._non_default_args)
     other._default_args = set(self._default_args)
